@@ -126,6 +126,74 @@ recorder!(ProbePop, visit_array_pop_expr, &ArrayPopExpr, "PopExpr");
 recorder!(ProbeIdent, visit_identifier, &WithRange<Identifier>, "Ident");
 recorder!(ProbeVarName, visit_variable_name, WithRange<&VariableName>, "VarName");
 
+// Partial recorders: they override only SOME leaf callbacks, so the trait's own default leaves
+// (which return the default value) are folded in between - the shape of every real analysis.
+pub struct LitOnly(pub Rec);
+impl Visit for LitOnly {
+    type Output = Lst;
+    type Error = Injected;
+}
+impl VisitExpr for LitOnly {
+    fn visit_literal_expression(&mut self, e: &WithRange<LiteralExpression>) -> visit::Result<Self> {
+        self.0.hit(lit_text(&e.0))
+    }
+}
+pub struct OpsOnly(pub Rec);
+impl Visit for OpsOnly {
+    type Output = Lst;
+    type Error = Injected;
+}
+impl VisitExpr for OpsOnly {
+    fn visit_poetic_number_literal_elem(&mut self, p: &PoeticNumberLiteralElem) -> visit::Result<Self> {
+        let t = match p {
+            PoeticNumberLiteralElem::Word(w) => format!("poetic:word:{}", w),
+            PoeticNumberLiteralElem::WordSuffix(w) => format!("poetic:suffix:{}", w),
+            PoeticNumberLiteralElem::Dot => "poetic:dot".to_string(),
+        };
+        self.0.hit(t)
+    }
+    fn visit_binary_operator(&mut self, o: BinaryOperator) -> visit::Result<Self> {
+        self.0.hit(format!("op:{:?}", o))
+    }
+    fn visit_unary_operator(&mut self, o: UnaryOperator) -> visit::Result<Self> {
+        self.0.hit(format!("un:{:?}", o))
+    }
+}
+pub struct IdOnly(pub Rec);
+impl Visit for IdOnly {
+    type Output = Lst;
+    type Error = Injected;
+}
+impl VisitExpr for IdOnly {
+    fn visit_pronoun(&mut self, _: SourceRange) -> visit::Result<Self> {
+        self.0.hit("pronoun".to_string())
+    }
+    fn visit_simple_identifier(&mut self, n: WithRange<&SimpleIdentifier>) -> visit::Result<Self> {
+        self.0.hit(format!("simple:{}", (n.0).0))
+    }
+    fn visit_common_identifier(&mut self, n: WithRange<&CommonIdentifier>) -> visit::Result<Self> {
+        self.0.hit(format!("common:{} {}", (n.0).0, (n.0).1))
+    }
+    fn visit_proper_identifier(&mut self, n: WithRange<&ProperIdentifier>) -> visit::Result<Self> {
+        self.0.hit(format!("proper:{}", (n.0).0.join(" ")))
+    }
+}
+
+/// a statement visitor that overrides two callbacks only (default statement leaves in between)
+pub struct OutputOnly(pub Rec);
+impl Visit for OutputOnly {
+    type Output = Lst;
+    type Error = Injected;
+}
+impl VisitProgram for OutputOnly {
+    fn visit_output(&mut self, _: &Output) -> visit::Result<Self> {
+        self.0.hit("output".into())
+    }
+    fn visit_mutation_operator(&mut self, o: MutationOperator) -> visit::Result<Self> {
+        self.0.hit(format!("mutation:{:?}", o))
+    }
+}
+
 // ------------------------------------------------------------------------- model traversal
 
 #[derive(Clone, Debug)]
@@ -645,6 +713,48 @@ pub fn check_tree(ctx: &mut Ctx, prog: &Program, src: &str, exhaustive_k: bool, 
             }
         }
     }
+    // partial visitors: the log of a visitor that overrides only some leaves is the leaf log filtered
+    {
+        let (_, full) = walk(NK::None, prog, None);
+        let partial: [(&str, &[&str]); 3] =
+            [("LitOnly", &["lit:"]), ("OpsOnly", &["poetic:", "op:", "un:"]), ("IdOnly", &["pronoun", "simple:", "common:", "proper:"])];
+        for (which, prefixes) in partial.iter() {
+            let want: Vec<String> = full.iter().filter(|e| prefixes.iter().any(|p| e.starts_with(p))).cloned().collect();
+            let k = if want.is_empty() { None } else { Some(rng.range(1, want.len())) };
+            for fail in [None, k] {
+                ctx.eval();
+                let walked = mon::guarded(|| match *which {
+                    "LitOnly" => walk_with!(LitOnly, prog, fail),
+                    "OpsOnly" => walk_with!(OpsOnly, prog, fail),
+                    _ => walk_with!(IdOnly, prog, fail),
+                });
+                let (res, log) = match walked {
+                    Ok(x) => x,
+                    Err(p) => {
+                        ctx.panic_outcome("walk", &p, case(NK::None).with("visitor", Json::s(*which)));
+                        return;
+                    }
+                };
+                ctx.add("events_compared", log.len() as u64);
+                let ok = match fail {
+                    None => log == want && res.as_ref().ok().map(|l| &l.0) == Some(&want),
+                    Some(k) => log[..] == want[..k] && res == Err(Injected(k)),
+                };
+                if !ok {
+                    ctx.violation(
+                        &format!("partial_visitor_differs:{}", which),
+                        &format!(
+                            "a visitor overriding only {:?} (failure injected at {:?}) made {} callbacks and returned {:?}; the filtered leaf walk has {}",
+                            prefixes, fail, log.len(), res.map(|l| l.0.len()), want.len()
+                        ),
+                        case(NK::None).with("visitor", Json::s(*which)),
+                    );
+                    return;
+                }
+                ctx.count("partial_visitor_walks_matched");
+            }
+        }
+    }
     // statement level: the default VisitProgram traversal
     let mut want = Vec::new();
     for b in &model.blocks {
@@ -676,6 +786,21 @@ pub fn check_tree(ctx: &mut Ctx, prog: &Program, src: &str, exhaustive_k: bool, 
             );
             return;
         }
+    }
+    {
+        let part: Vec<String> = want.iter().filter(|e| *e == "output" || e.starts_with("mutation:")).cloned().collect();
+        let mut v = OutputOnly(Rec::default());
+        let res = v.visit_program(prog);
+        ctx.eval();
+        if v.0.log != part || res.as_ref().ok().map(|l| &l.0) != Some(&part) {
+            ctx.violation(
+                "partial_statement_visitor_differs",
+                &format!("a statement visitor overriding only output/mutation made {} callbacks, result {:?}; expected {}", v.0.log.len(), res.map(|l| l.0.len()), part.len()),
+                case(NK::None),
+            );
+            return;
+        }
+        ctx.count("partial_visitor_walks_matched");
     }
     ctx.count("trees");
     ctx.nontrivial(hash_str(src));
